@@ -58,6 +58,8 @@ fc8a7a4:C18
 d61bc2a:C19
 306c68e:C03
 f411dd9:C17
+a487d12:C17
+50e2d9c:C17
 "
 [ -n "$REVERT_ONLY" ] && PAIRS="$REVERT_ONLY"
 for pair in $PAIRS; do
